@@ -15,6 +15,11 @@ use serde_json::json;
 
 const ME: Id = Id::new(0, 0);
 
+thread_local! {
+    /// set by the C20 through-foca workload
+    pub static PANIC_IS_VERDICT: std::cell::Cell<bool> = const { std::cell::Cell::new(false) };
+}
+
 struct Plan {
     codec: CodecKind,
     kind: usize,
@@ -42,6 +47,13 @@ fn run_at(plan: &Plan, mps: usize, arm: Arm, acc: &mut Acc) -> Result<u64, V> {
     let mut indirect_timer: Option<Timer<Id>> = None;
     let mut exec = |node: &mut Node, watch: &mut Watch, op: Op, acc: &mut Acc, collect: bool, out: &mut Vec<(Id, Vec<u8>)>, pt: &mut Option<Timer<Id>>, it: &mut Option<Timer<Id>>| -> Result<Res, V> {
         let rec = node.call(op);
+        if let Res::Panic(loc, msg) = &rec.res {
+            // C06 owns panics in general; the C20 use of this sweep is precisely about what happens when the space
+            // runs out in the middle of a datagram: a panic there is its business
+            if PANIC_IS_VERDICT.with(|p| p.get()) {
+                return Err(V::new("C07/panic-when-space-runs-out", format!("{} with max_packet_size {mps} panicked at {loc}: {msg}", rec.op.name())));
+            }
+        }
         watch.observe(&rec, acc)?;
         for (t, _) in rec.scheds() {
             match t {
